@@ -176,6 +176,7 @@ def main(tier, seed):
     nb = 16 if tier == "quick" else 96
     batches = [{"cases": cases[i::nb]} for i in range(nb)]
     acc = harness.run_workers("checks.c06_statemachine", "run_batch", batches, 3400)
+    harness.require_vnet_fidelity(acc)
     cells = acc.extra.pop("cells", {})
     return harness.finish(PROP, tier, seed, "exploration", acc, RULE,
                           ["the reference model's hard clauses are H1-H9 of DESIGN.md 3/C06; soft cells are reported as model drift and do not fail the check",
